@@ -22,6 +22,7 @@ EXT_PANIC = {
     'std::cell::RefCell::borrow': 'borrow', 'std::cell::RefCell::borrow_mut': 'borrow',
     'std::char::from_digit': 'radix', 'std::string::String::insert': 'idx', 'std::string::String::remove': 'idx',
     'std::collections::HashMap::index': 'index',
+    'std::cmp::Ord::clamp': 'min-le-max',          # asserts min <= max (seed C04-r clamped a tag's end frame into from..last)
 }
 ALLOC = {
     'std::vec::Vec::with_capacity': (0, 'elem'), 'std::vec::from_elem': (1, 'elem'), 'alloc::vec::from_elem': (1, 'elem'),
@@ -74,6 +75,62 @@ def user_macro(macros):
                  'unimplemented'):
             return m
     return None
+
+
+_NEG = {'Lt': 'Ge', 'Ge': 'Lt', 'Gt': 'Le', 'Le': 'Gt', 'Eq': 'Ne', 'Ne': 'Eq'}
+
+
+def assertion_cannot_fail(b, bi, iv):
+    """the failing side of an assert!/debug_assert! (block bi calls the panic routine) is unreachable, shown in one of two ways:
+    (1) the comparisons that hold on the way there contradict each other - `if n > MAX { return Err(..) }; debug_assert!(n <= MAX)`:
+        on the failing side both `n <= MAX` (from the early return) and `n > MAX` (the assertion failed) would hold;
+    (2) the assertion is `(LO..=HI).contains(&x)` / `(LO..HI).contains(&x)` with constant bounds and the interval analysis bounds
+        x inside them (the difference of two values widened from u8 lies in -255..=255)."""
+    try:
+        facts = q.facts_at(b, bi)
+    except Exception:
+        return False
+    seen = set()
+    for op, l, r_ in facts:
+        key = (repr(strip_casts(l)), repr(strip_casts(r_)))
+        if (_NEG.get(op), key) in seen:
+            return True
+        seen.add((op, key))
+        # a <= b together with a > b; also a < b with a >= b etc. are covered by _NEG; a <= b with a == b is no contradiction
+    for cond, vals, a in q.guards(b, bi):
+        truth = q.bool_outcome(b, a, vals)
+        if truth is not False or cond[0] != 'call' or cond[1] not in ('std::ops::RangeInclusive::contains', 'std::ops::Range::contains'):
+            continue
+        rg = cond[2][0]
+        lo = hi = None
+        if rg[0] == 'agg':
+            f = dict(rg[3])
+            lo, hi = q.const_val(f.get('start', ('unknown',))), q.const_val(f.get('end', ('unknown',)))
+            if hi is not None and rg[1].endswith('::Range'):
+                hi -= 1
+        elif rg[0] == 'call' and rg[1] == 'std::ops::RangeInclusive::new' and len(rg[2]) == 2:
+            lo, hi = q.const_val(rg[2][0]), q.const_val(rg[2][1])
+        if not isinstance(lo, int) or not isinstance(hi, int):
+            continue
+        # the operand of contains(): `&x` - find the call and the local behind the reference
+        t = b.blocks[a]['term']
+        dl = t['discr']['p']['l'] if t and t.get('discr', {}).get('k') in ('copy', 'move') else None
+        r = q.res(b)
+        ds = r.defs.get(dl, []) if dl is not None else []
+        if len(ds) == 1 and ds[0][1] == 'call' and len(ds[0][2]['args']) == 2:
+            ref = ds[0][2]['args'][1]
+            if ref.get('k') in ('copy', 'move') and not ref['p']['p']:
+                rd = r.defs.get(ref['p']['l'], [])
+                for _ in range(3):      # `&*&x`: reborrows
+                    if len(rd) == 1 and rd[0][1] == 'rv' and rd[0][2]['k'] == 'ref' and [e['k'] for e in rd[0][2]['p']['p']] == ['deref']:
+                        rd = r.defs.get(rd[0][2]['p']['l'], [])
+                    else:
+                        break
+                if len(rd) == 1 and rd[0][1] == 'rv' and rd[0][2]['k'] == 'ref' and not rd[0][2]['p']['p']:
+                    x = iv.operand({'k': 'copy', 'p': {'l': rd[0][2]['p']['l'], 'p': [], 'ty': b.locals[rd[0][2]['p']['l']]['ty']}}, (), ds[0][3])
+                    if x is not None and lo <= x[0] and x[1] <= hi:
+                        return True
+    return False
 
 
 def inventory(fx, bodies):
@@ -142,6 +199,8 @@ def inventory(fx, bodies):
                 name = c.callee
                 if name.startswith(PANIC_FNS):
                     um = user_macro(t['macros']) or name.split('::')[-1]
+                    if um in ('assert', 'debug_assert') and assertion_cannot_fail(b, bi, iv):
+                        continue          # an assertion of something the code on the way already guarantees: not a panic site
                     out.append(Site('panic:' + um, b, bi, um, t['span'], t['macros'], {'callee': name}))
                     continue
                 if name in EXT_PANIC:
@@ -149,7 +208,8 @@ def inventory(fx, bodies):
                     kind = EXT_PANIC[name]
                     what = '%s(%s)' % (name.split('::')[-1], ', '.join(show(x)[:50] for x in at[:3]))
                     out.append(Site('ext:' + name.split('::')[-1], b, bi, what, t['span'], t['macros'],
-                                    {'callee': name, 'kind': kind, 'args': at, 'res': c.res_norm}))
+                                    {'callee': name, 'kind': kind, 'args': at, 'res': c.res_norm,
+                                     'arg_ranges': [iv.operand(a_, (), bi) for a_ in c.args] if kind == 'min-le-max' else None}))
                     continue
                 if alloc_entry(c) is not None:
                     at = q.arg_terms(c)
